@@ -1,8 +1,12 @@
 import Shentu.Proofs.VmConserveRun
 /-
   C01 at the level of the VM model, whole executions: whatever program runs — any code, input, gas, call tree up to the
-  model's nesting depth, value transfers, SELFDESTRUCT, failing frames — the accounts of the interpreter's cache hold the
-  same coins afterwards as before.  `Props/C01vm.lean` proves this for each world-changing primitive; this file composes
+  model's nesting depth, value transfers, SELFDESTRUCT, CREATE / CREATE2 with and without endowment (whatever address the
+  derivation oracle `Env.fresh` answers), failing frames and failing constructors — the accounts of the interpreter's cache
+  hold the same coins afterwards as before.  A created account starts with no coins (`createWorld`); its endowment reaches it by
+  the same `transfer` that opens a CALL frame, inside the constructor's frame; storing the deployed code changes no balance
+  (`safe_put_code`); a failed constructor's frame is dropped (`settleCreate`).  Every opcode byte is covered: the statements
+  have no hypothesis on the instructions executed.  `Props/C01vm.lean` proves this for each world-changing primitive; this file composes
   them over the interpreter loop (`step`, `run`), the frame (`runFrame`), the nesting (`runDepth`) and the outermost call
   (`execTop`).  The bound `n < 2^64` (the cache holds fewer than 2^64 coins: balances are uint64 in Burrow, the chain's supply
   is far below) excludes the overflow branch of SELFDESTRUCT, where the unconditional statement is false
@@ -45,4 +49,46 @@ theorem execTop_conserves (env : Env) (hq : env.q.selfDestructSelfKeeps = true) 
 /-- the implementation's configuration has the repair -/
 example : Quirks.impl.selfDestructSelfKeeps = true := rfl
 
+/-! ## a concrete execution with a creation -/
+
+/-- a contract holding 7 coins that executes CREATE with an endowment of 3 and the one-byte init code `00` (STOP), then stops:
+    `PUSH1 1 PUSH1 0 PUSH1 3 CREATE STOP`; the derivation oracle answers 0x3000 -/
+def createEnv1 : Env :=
+  { code := ⟨#[0x60, 0x01, 0x60, 0x00, 0x60, 0x03, 0xf0, 0x00]⟩, opBits := opcodeBits ⟨#[0x60, 0x01, 0x60, 0x00, 0x60, 0x03, 0xf0, 0x00]⟩,
+    input := .empty, caller := 0x1000, callee := 0x2000, origin := 0x1000, value := 0, height := 1, time := 0, chainId := 0,
+    fresh := fun _ _ => 0x3000 }
+def createWorld1 : World :=
+  [{ addr := 0x1000, balance := 5 }, { addr := 0x2000, balance := 7, code := ⟨#[0x60, 0x01, 0x60, 0x00, 0x60, 0x03, 0xf0, 0x00]⟩ }]
+
+/-- non-vacuity of `execTop_conserves` on a creation: the pre-state is keyed and holds 12 coins … -/
+example : SafeW 12 createWorld1 := ⟨by decide, by decide⟩
+
+/-- … the execution succeeds, the new account exists and holds the endowment, the creator holds the rest, and the sum is 12 -/
+theorem create_with_value_example :
+    (execTop createEnv1 100000 createWorld1).err = none ∧
+    balOf (execTop createEnv1 100000 createWorld1).world 0x3000 = 3 ∧
+    balOf (execTop createEnv1 100000 createWorld1).world 0x2000 = 4 ∧
+    total (execTop createEnv1 100000 createWorld1).world = 12 := by
+  decide +kernel
+
+/-- the same creation with an endowment the creator cannot pay (8 of 7 coins): the constructor's frame is dropped, no account
+    appears, nothing moves -/
+def createEnv2 : Env :=
+  { createEnv1 with code := ⟨#[0x60, 0x01, 0x60, 0x00, 0x60, 0x08, 0xf0, 0x00]⟩,
+                    opBits := opcodeBits ⟨#[0x60, 0x01, 0x60, 0x00, 0x60, 0x08, 0xf0, 0x00]⟩ }
+
+theorem create_unpayable_example :
+    (execTop createEnv2 100000 createWorld1).err = none ∧
+    ((execTop createEnv2 100000 createWorld1).world.get 0x3000).isNone = true ∧
+    total (execTop createEnv2 100000 createWorld1).world = 12 := by
+  decide +kernel
+
 end Shentu.Props.C01run
+
+#print axioms Shentu.Props.C01run.step_conserves
+#print axioms Shentu.Props.C01run.run_conserves
+#print axioms Shentu.Props.C01run.runFrame_conserves
+#print axioms Shentu.Props.C01run.runDepth_conserves
+#print axioms Shentu.Props.C01run.execTop_conserves
+#print axioms Shentu.Props.C01run.create_with_value_example
+#print axioms Shentu.Props.C01run.create_unpayable_example
